@@ -91,3 +91,27 @@ func H_C02_modify_deep() {
 		vReach("decoded")
 	}
 }
+
+func init() { vReg("H_C02_deepnest", H_C02_deepnest) }
+
+// Deeply nested frames (concrete): 33, 64 and 200 nested SEQUENCEs around an empty one, read
+// with a silent and with a debug-level logger (which pretty-prints the frame, indenting per
+// level): an error or a request, never a panic.
+func H_C02_deepnest() {
+	depth := []int{33, 64, 200}[vLen("depth", 2)]
+	p := refSeq()
+	for i := 0; i < depth; i++ {
+		outer := refSeq()
+		outer.AppendChild(p)
+		p = outer
+	}
+	nc := vNetConn("c")
+	vConnFeed(nc, vWire(p))
+	c, err := newConn(context.Background(), 1, nc, vLoggerAt(vBool("debugLogging")), vMux())
+	if err != nil {
+		return
+	}
+	r, err := c.readRequest(1)
+	vAssert(err != nil && r == nil, "a frame that is not an LDAPMessage is refused")
+	vReach("deep")
+}
